@@ -323,6 +323,11 @@ def vG : Nat := 3
 the same text as the plain spellings when the variable exists and `<nil>` instead of `<no value>` when it does not -/
 def vP (n : Nat) : Nat := n + 4
 
+/-- marker of an action the template engine cannot parse (`{P}`: an undefined function, an unclosed action, a stray
+`{{end}}` …) or fails to execute (`{E}`: a template function returning an error): a template containing one makes
+`TextTemplater.Apply` return an error -/
+def vBad : Nat := 99
+
 /-- what `text/template` prints for a variable that does not exist (a map without that key) -/
 def noValue : String := "<no value>"
 /-- … and what `print` / `printf "%v"` make of it -/
@@ -331,15 +336,18 @@ def nilText : String := "<nil>"
 /-- white space as `text/template`'s trim markers understand it -/
 def isTmplSpace (c : Char) : Bool := c = ' ' || c = '\t' || c = '\r' || c = '\n'
 
-/-- what a placeholder letter stands for: `U A I G` are variables; `R S X` are calls of the template functions pandora
-registers with constant arguments, each with a single possible printed result (`randInt 7 8` ↦ `7`,
-`randString 3 "z"` ↦ `zzz`, `uuid` ↦ a version-4 UUID, which the recorder prints as `UUID`) -/
+/-- what a placeholder letter stands for: `U A I G` are variables (`K`: `G` again, written with the `index` builtin);
+`R S X` are calls of the template functions pandora registers with constant arguments, each with a single possible
+printed result (`randInt 7 8` ↦ `7`, `randString 3 "z"` ↦ `zzz`, `uuid` ↦ a version-4 UUID, which the recorder prints
+as `UUID`); `L` is a string constant (`lit`), `N` a builtin on a constant (`len "abcd"` ↦ `4`); `E` / `P` fail -/
 def placeholder (c : Char) (d : Char := '0') : Option (Piece Char) :=
   let cls := fun (n : Nat) => if d = '3' || d = '4' || d = '6' then vP n else n
   if c = 'U' then some (Piece.var (cls vU)) else if c = 'A' then some (Piece.var (cls vA)) else if c = 'I' then some (Piece.var (cls vI))
-  else if c = 'G' then some (Piece.var (cls vG))
+  else if c = 'G' || c = 'K' then some (Piece.var (cls vG))
+  else if c = 'L' then some (Piece.lit ['l', 'i', 't']) else if c = 'N' then some (Piece.lit ['4'])
   else if c = 'R' then some (Piece.lit ['7']) else if c = 'S' then some (Piece.lit ['z', 'z', 'z'])
-  else if c = 'X' then some (Piece.lit ['U', 'U', 'I', 'D']) else none
+  else if c = 'X' then some (Piece.lit ['U', 'U', 'I', 'D'])
+  else if c = 'E' || c = 'P' then some (Piece.var vBad) else none
 
 def flushLit (acc : List Char) : T := if acc.isEmpty then [] else [Piece.lit acc.reverse]
 
@@ -464,6 +472,10 @@ def mkVars (u : Option String) (sv : ShotVars) (g : String) : Vars Char :=
   [(vU, (u.getD noValue).toList), (vA, (sv.a.getD noValue).toList), (vI, (sv.i.getD noValue).toList), (vG, g.toList),
    (vP vU, (u.getD nilText).toList), (vP vA, (sv.a.getD nilText).toList), (vP vI, (sv.i.getD nilText).toList), (vP vG, g.toList)]
 
+/-- some template of the call (payload or metadata) cannot be parsed or executed -/
+def callBad (cd : CallDef) : Bool :=
+  (cd.md.map (·.2) ++ cd.payload.map (·.2.2)).any fun t => t.any fun p => match p with | Piece.var m => m == vBad | _ => false
+
 /-- the auth results visible to a step: none inside the step named `auth` itself -/
 def svFor (cd : CallDef) (sv : ShotVars) : ShotVars := if cd.name == "auth" then { a := none, i := none } else sv
 
@@ -477,6 +489,9 @@ def shootStep (v : Variant) (c : Cfg) (gun : Nat) (scn : String) (cd : CallDef) 
     if cd.pre then (some (c.users.getD (drawn % c.users.length) ""), assocSet w.iters owner (drawn + 1)) else (none, w.iters)
   let iters := ui.2
   let vars : Vars Char := mkVars ui.1 (svFor cd sv) c.g
+  -- a template that cannot be parsed / executed: `templ.Apply` returns an error after the preprocessor ran; the step
+  -- reports a sample with code 0, makes no call and ends the shot; nothing was written (the map is a clone)
+  if callBad cd then .failed { w with iters := iters } { calls := [], samples := [sampleText (scn ++ ".t" ++ cd.name) 0] } else
   -- templater: payload (pure), metadata (shared map + per-gun cache)
   let payload := cd.payload.map fun (fname, kind, t) => (fname, pvalOf kind (String.ofList (render vars t)))
   let cells := (assocGet w.cells cd.name).getD []
